@@ -71,6 +71,9 @@ where
     }
 }
 
+const SPO_NOT_DEFAULT_GRAPH: &str =
+    "GraphNameIndex contract violated: the default graph index was used for a subject, predicate or object";
+
 pub type Qud<'a, TI> = Gspo<<<TI as TermIndex>::Term as Term>::BorrowTerm<'a>>;
 
 impl<'a, TI, GM, SM, PM, OM> Iterator for GspoMatchingIterator<'a, TI, GM, SM, PM, OM>
@@ -159,13 +162,12 @@ where
             Some(first) => {
                 Box::new(Self::new(terms, abcd, bm, cm, dm, first).map(move |q| {
                     let [g, s, p, o] = to_gspo(q);
-                    debug_assert!(s.is_some());
-                    debug_assert!(p.is_some());
-                    debug_assert!(o.is_some());
-                    // the following is safe, because s, p and o are never None
-                    let s = unsafe { s.unwrap_unchecked() };
-                    let p = unsafe { p.unwrap_unchecked() };
-                    let o = unsafe { o.unwrap_unchecked() };
+                    // s, p and o are never None, as long as TI honours the contract of
+                    // GraphNameIndex::get_default_graph_index (which is a safe trait,
+                    // so this can not be relied upon for memory safety)
+                    let s = s.expect(SPO_NOT_DEFAULT_GRAPH);
+                    let p = p.expect(SPO_NOT_DEFAULT_GRAPH);
+                    let o = o.expect(SPO_NOT_DEFAULT_GRAPH);
                     Ok((g, [s, p, o]))
                 }))
             }
@@ -273,13 +275,10 @@ where
             None => Box::new(empty()),
             Some(first) => Box::new(Self::new(terms, abcd, cm, dm, first).map(move |q| {
                 let [g, s, p, o] = to_gspo(q);
-                debug_assert!(s.is_some());
-                debug_assert!(p.is_some());
-                debug_assert!(o.is_some());
-                // the following is safe, because s, p and o are never None
-                let s = unsafe { s.unwrap_unchecked() };
-                let p = unsafe { p.unwrap_unchecked() };
-                let o = unsafe { o.unwrap_unchecked() };
+                // see BcdMatchingIterator::boxed
+                let s = s.expect(SPO_NOT_DEFAULT_GRAPH);
+                let p = p.expect(SPO_NOT_DEFAULT_GRAPH);
+                let o = o.expect(SPO_NOT_DEFAULT_GRAPH);
                 Ok((g, [s, p, o]))
             })),
         }
